@@ -240,6 +240,11 @@ func init() {
 	// read-only by contract, but they take the context's lock: a lock left held is state that survives recycling
 	C("Copy", "", func(e *env) { _ = e.ctx.Copy() })
 	C("ForEachKey", "", func(e *env) { e.ctx.ForEachKey(func(string, interface{}) {}) })
+	C("ForEachKey", "panic", func(e *env) { // the callback is user code: its panic (recovered here) must not leave ctx.mu held
+		e.ctx.Set("c09fk", 1)
+		defer func() { recover() }() //nolint:errcheck
+		e.ctx.ForEachKey(func(string, interface{}) { panic("c09: ForEachKey callback") })
+	})
 	C("Get", "", func(e *env) { e.ctx.Get("c09") })
 	C("GetString", "", func(e *env) { _ = e.ctx.GetString("c09") })
 	C("Value", "", func(e *env) { _ = e.ctx.Value("c09") })
